@@ -92,9 +92,15 @@ theorem linesFit_render (m : Nat) (ls : List Line) (f : Bool) (hnl : ∀ x ∈ l
 
 /-! ### streaming: ParseConcurrent on a channel of capacity `c`, all schedules -/
 
-theorem producer_wf (m : Nat) (text : Str) : WFProg [0] (producer m text) := wfProg_sendAll _
+/-- the goroutine's loop sends exactly the parsed records, in order, then closes once -/
+theorem producer_refines (m : Nat) (text : Str) :
+    producer m text = (parse m text).map (Chan.Op.send 0) ++ [Chan.Op.close 0] := producer_eq m text
 
-theorem producer_sends (m : Nat) (text : Str) : sends 0 (producer m text) = parse m text := sends_sendAll 0 _
+theorem producer_wf (m : Nat) (text : Str) : WFProg [0] (producer m text) := by
+  rw [producer_eq]; exact wfProg_sendAll _
+
+theorem producer_sends (m : Nat) (text : Str) : sends 0 (producer m text) = parse m text := by
+  rw [producer_eq]; exact sends_sendAll 0 _
 
 /-- SAFETY, for every capacity, EVERY consumer and every schedule: what has been received is a prefix
 of the parsed records (same records, same order, none lost or duplicated so far); the producer never
@@ -119,7 +125,7 @@ theorem stream_terminates (m c : Nat) (text : Str) :
   refine ⟨no_infinite_path (concurrent_stops _) h2 _ ho, fun n s hn => ?_⟩
   have := (reachN_measure (concurrent_stops _) h2 ho hn).2
   have hm : Chan.measure (init (fun _ => c) (producer m text)) = 3 * ((parse m text).length + 1) + 2 := by
-    simp [Chan.measure, init, producer, unseen]
+    simp [Chan.measure, init, producer_eq, unseen]
   omega
 
 /-- COMPLETENESS, for every capacity and every schedule of a `for range` consumer: a run that cannot be
